@@ -5,6 +5,22 @@ HERE = os.path.dirname(os.path.dirname(os.path.abspath(__file__)))
 PY = "/venv/bin/python"
 
 CHECKS = {
+ "C01": dict(
+    category="model_checking",
+    technique="bounded exhaustive enumeration of expression trees x all valuations on the real operator API/simplifier/mapper against plain-int two's complement semantics",
+    text="All well-sized trees up to the operator bound over the written-down leaf/operator alphabet are built with the real API; for every "
+         "valuation of the domain (complete at width<=4) the built form, three simplify variants (via an independent structural walker) and "
+         "mapper evaluation are compared with int arithmetic. Any rewrite-rule or constant-operator defect whose smallest witness is inside the bound is found on every run.",
+    note="Bound: <=2 operators at w=3 (quick), <=2 at w in 1,2,3,4,8 and <=3 over the re-association sub-alphabet (thorough); 1 operator at widths 1..128; complexity threshold off and small. "
+         "Sign-sensitive operators take operands whose every leaf and node was declared signed/unsigned. Trusted: amc/ref/bv.py, amc/gen/exprs.py.",
+    design="DESIGN.md section 3, C01"),
+ "C12": dict(
+    category="model_checking",
+    technique="bounded exhaustive enumeration of expression trees; width and comp-tiling invariants checked on every construction/simplify/eval/slice result",
+    text="Same enumeration as C01; every result object (built, simplified with each option set, evaluated under concrete and partial maps, sliced) "
+         "must have the width dictated by construction and every reachable comp must tile [0,size) consistently with smask.",
+    note="Same bounds as C01. Trusted: width function of amc/gen/exprs.py and comps_ok of amc/ref/bv.py.",
+    design="DESIGN.md section 3, C12"),
  "C08": dict(
     category="model_checking",
     technique="explicit-state exploration of write/copy/restruct/shift/merge histories on the real MemoryMap against a dict byte-store reference",
